@@ -71,4 +71,16 @@ theorem kernel_decimal_checked_rem (prof : Profile) (x y : Dec) (hp : x.nfrac < 
     Gen.K.decimal_checked_rem prof x y = checkedOfChecked (eqZero y) (remDecDec x y) :=
   Kernels.decimal_checked_rem_eq prof x y hp hq
 
+/-- the integer forms (`Decimal % int`, `int % Decimal`, and their `checked_rem`), macro bodies instantiated with `i64` -/
+theorem kernel_decimal_rem_int (prof : Profile) (x : Dec) (i : Int) (hp : x.nfrac < 256) :
+    Gen.K.decimal_rem_int prof x i = opOfChecked (decide (i = 0)) (remDecInt x i) := Kernels.decimal_rem_int_eq prof x i hp
+theorem kernel_decimal_checked_rem_int (prof : Profile) (x : Dec) (i : Int) (hp : x.nfrac < 256) :
+    Gen.K.decimal_checked_rem_int prof x i = checkedOfChecked (decide (i = 0)) (remDecInt x i) :=
+  Kernels.decimal_checked_rem_int_eq prof x i hp
+theorem kernel_int_rem_decimal (prof : Profile) (i : Int) (y : Dec) (hq : y.nfrac < 256) :
+    Gen.K.int_rem_decimal prof i y = opOfChecked (eqZero y) (remIntDec i y) := Kernels.int_rem_decimal_eq prof i y hq
+theorem kernel_int_checked_rem_decimal (prof : Profile) (i : Int) (y : Dec) (hq : y.nfrac < 256) :
+    Gen.K.int_checked_rem_decimal prof i y = checkedOfChecked (eqZero y) (remIntDec i y) :=
+  Kernels.int_checked_rem_decimal_eq prof i y hq
+
 end Fpdec.Props.C10
